@@ -53,7 +53,10 @@ fn mutate(rng: &mut Rng, mut b: Vec<u8>) -> Vec<u8> {
 fn main() {
     let args = Args::parse();
     let mut rng = Rng::new(args.seed);
-    let secs: u64 = if args.thorough { 40 } else { 14 };
+    // attack duration; before it a calibration phase (nodes must finalize without any attack), after it a
+    // recovery phase (every node must finalize again) whose time limit scales with the calibration time, so that a
+    // loaded machine makes the run longer, never wrong
+    let secs: u64 = if args.thorough { 27 } else { 9 };
     std::panic::set_hook(Box::new(|info| {
         let th = std::thread::current().name().unwrap_or("?").to_string();
         let msg = if let Some(s) = info.payload().downcast_ref::<&str>() { s.to_string() } else if let Some(s) = info.payload().downcast_ref::<String>() { s.clone() } else { "panic".into() };
@@ -108,6 +111,15 @@ fn main() {
 
     // ---- hostile sender (plain std socket, own thread)
     let sock = UdpSocket::bind("127.0.0.1:0").expect("bind");
+    let run_start = Instant::now();
+    let fins_now = |rt: &tokio::runtime::Runtime| -> Vec<u64> { rt.block_on(async { let mut v = Vec::new(); for (_, p) in &pools { v.push(p.read().await.finalized_slot().inner()); } v }) };
+    // ---- phase 0: calibration without attack
+    let mut calib_ok = false;
+    while run_start.elapsed() < Duration::from_secs(40) {
+        std::thread::sleep(Duration::from_millis(100));
+        if fins_now(&rt).iter().all(|f| *f >= 2) { calib_ok = true; break; }
+    }
+    let calib = run_start.elapsed();
     let start = Instant::now();
     let targets: Vec<usize> = (0..n).filter(|i| *i != BYZ).collect();
     let mut sent = [0u64; 6];
@@ -115,11 +127,11 @@ fn main() {
     let mut next_sample = 1u64;
     let mut samples: Vec<Vec<u64>> = Vec::new();
     let mut shredder = RegularShredder::default();
-    let attack_until = secs * 2 / 3;
+    let attack_until = secs;
     let ser = |m: &ConsensusMessage| wincode::serialize(m).expect("ser");
     while start.elapsed() < Duration::from_secs(secs) {
         let t = start.elapsed().as_millis() as u64;
-        let cur_slot = t / 400 + 1; // rough slot estimate (DELTA_BLOCK = 400 ms)
+        let cur_slot = run_start.elapsed().as_millis() as u64 / 400 + 1; // rough slot estimate (DELTA_BLOCK = 400 ms)
         if t / 1000 < attack_until {
             let j = *rng.pick(&targets);
             let info = &infos[j];
@@ -254,26 +266,38 @@ fn main() {
         }
         if start.elapsed().as_secs() >= next_sample {
             next_sample += 1;
-            let fins: Vec<u64> = rt.block_on(async { let mut v = Vec::new(); for (_, p) in &pools { v.push(p.read().await.finalized_slot().inner()); } v });
-            samples.push(fins);
+            samples.push(fins_now(&rt));
         }
     }
+    // ---- phase 2: recovery (no attack): every node finalizes at least two further slots
+    let at_attack_end = fins_now(&rt);
+    let limit = Duration::from_secs(20).max(calib * 8);
+    let rec_start = Instant::now();
+    let mut last = at_attack_end.clone();
+    while rec_start.elapsed() < limit {
+        std::thread::sleep(Duration::from_millis(100));
+        last = fins_now(&rt);
+        if last.iter().zip(at_attack_end.iter()).all(|(a, b)| *a >= *b + 2) { break; }
+    }
+    let recovery = rec_start.elapsed();
+    samples.push(last.clone());
+    // panics are collected *before* shutdown: cancelling the tasks one by one makes the survivors' channel sends
+    // fail ("votor should not drop the event receiver"), which is a shutdown artefact, not the effect of an input
+    let panics = PANICS.lock().unwrap().clone();
     for c in &cancels { c.cancel(); }
     std::thread::sleep(Duration::from_millis(300));
 
     // ---- oracle
-    let panics = PANICS.lock().unwrap().clone();
     rec.step(&format!("run secs={secs} nodes={} byz={BYZ} sent={:?}", n - 1, sent), "ok");
     rec.oracle(panics.is_empty(), "node-task-panicked", || format!("panics during the hostile run: {:?}", &panics[..panics.len().min(5)]));
-    let last = samples.last().cloned().unwrap_or_default();
-    let at_attack_end = samples.get(attack_until as usize - 1).cloned().unwrap_or_default();
-    let mid = samples.get(samples.len() / 2).cloned().unwrap_or_default();
+    rec.count(&format!("calibration:{}", if calib_ok { "nodes-finalize-without-attack" } else { "INCONCLUSIVE-no-progress-without-attack" }));
     for (k, (i, _)) in pools.iter().enumerate() {
         let f_end = last.get(k).copied().unwrap_or(0);
         let f_att = at_attack_end.get(k).copied().unwrap_or(0);
-        let f_mid = mid.get(k).copied().unwrap_or(0);
-        rec.oracle(f_mid >= 2 && f_end > f_mid, "node-stopped-finalizing", || format!("node {i}: finalized slot {f_mid} at half time, {f_end} at the end (samples per second: {:?})", samples.iter().map(|s| s[k]).collect::<Vec<_>>()));
-        rec.oracle(f_end > f_att, "node-wedged-after-attack", || format!("node {i}: finalized slot {f_att} when the attack ended, {f_end} at the end"));
+        // progress is only demanded if the nodes made progress on this machine before the attack started
+        rec.oracle(!calib_ok || f_end >= f_att + 2, "node-wedged-after-attack", || format!("node {i}: finalized slot {f_att} when the attack ended and {f_end} after {:.1} s without attack (before the attack the nodes needed {:.1} s to finalize slot 2; samples per second during the attack: {:?})", recovery.as_secs_f64(), calib.as_secs_f64(), samples.iter().map(|s| s[k]).collect::<Vec<_>>()));
+        let during = samples.first().map(|s| s[k]).unwrap_or(0);
+        rec.count(&format!("progress-during-attack:{}", f_att > during));
     }
     rec.count(&format!("finalized-end-min:{}", last.iter().min().copied().unwrap_or(0)));
     let class = fnv(0, &format!("{sent:?}"));
@@ -282,7 +306,7 @@ fn main() {
     rec.begin_case("progress-trace");
     rec.step(&format!("samples {:?}", samples), "ok");
     rec.end_case(fnv(0, &format!("{samples:?}")), true);
-    let extra = serde_json::json!({ "sent_per_interface": sent, "finalized_samples": samples, "panics": panics });
+    let extra = serde_json::json!({ "sent_per_interface": sent, "finalized_samples": samples, "panics": panics, "calibration_s": calib.as_secs_f64(), "recovery_s": recovery.as_secs_f64() });
     rec.finish(&args, extra);
     std::process::exit(0);
 }
